@@ -33,5 +33,9 @@ void _ZSt28__throw_bad_array_new_lengthv(void){ verif_exc = 1; }
 void _ZSt20__throw_length_errorPKc(uint8_t* s){ verif_exc = 1; }
 void _ZSt24__throw_out_of_range_fmtPKcz(uint8_t* s, ...){ verif_exc = 1; }
 void __cxa_rethrow(void){ verif_exc = 1; }
+/* function-local statics (single-threaded): first byte of the guard = initialised */
+uint32_t __cxa_guard_acquire(uint64_t* g){ return *(uint8_t*)g == 0; }
+void __cxa_guard_release(uint64_t* g){ *(uint8_t*)g = 1; }
+void __cxa_guard_abort(uint64_t* g){}
 void __cxa_pure_virtual(void){ verif_unreachable(); }
 void _ZSt25__throw_bad_function_callv(void){ verif_exc = 1; }
